@@ -34,8 +34,8 @@ theorem all_isNumeric_floatList (bs : List Nat) : (floatList bs).all isNumeric =
   simp [floatList, List.all_map, isNumeric]
 
 theorem canonNumeric_floatList (b : Nat) (bs : List Nat) : canonNumeric (floatList (b :: bs)) = floatList (b :: bs) := by
-  have hp : promote ((floatList (b :: bs)).map scalarOf) = .float := by
-    simp [floatList, promote, scalarOf]
+  -- by computation (robust to how `promote` spells its two class tests): the head is a float
+  have hp : promote ((floatList (b :: bs)).map scalarOf) = .float := rfl
   unfold canonNumeric
   simp only [hp]
   simp [floatList, scalarOf, castTo, List.map_map]
